@@ -164,6 +164,8 @@ pub enum Fault {
     Benign { eintr_every: u64, short_every: u64 },
     /// the writer's tmpdir is unusable during this build
     BadTmpdir { mode: String },
+    /// the LMDB map is shrunk to `pages` pages above the committed size for this build
+    MapFull { pages: usize },
 }
 
 #[derive(Serialize, Deserialize, Clone, Debug, PartialEq)]
@@ -235,6 +237,15 @@ pub struct Plan {
     /// golden fixture to load before the first step (C16a)
     #[serde(default)]
     pub fixture: Option<String>,
+    /// engine F: run only these fault scenarios on the final build (None = enumerate all)
+    #[serde(default)]
+    pub scenarios: Option<Vec<Fault>>,
+    /// engine F: commit the pending operations before the faulty builds
+    #[serde(default)]
+    pub stage_committed: bool,
+    /// engines K / A: free-form parameters (readers, crash stride, ...)
+    #[serde(default)]
+    pub params: std::collections::BTreeMap<String, u64>,
 }
 
 pub const INDEX_POOL: [u16; 7] = [0, 1, 2, 255, 256, 65534, 65535];
@@ -596,6 +607,9 @@ pub fn gen_history(seed: u64, focus: &str, thorough: bool) -> Plan {
         },
         steps,
         fixture: None,
+        scenarios: None,
+        stage_committed: false,
+        params: Default::default(),
     }
 }
 
